@@ -302,8 +302,12 @@ impl DeepClone for PdfStream {
             StreamInner::InFile { id, ref file_range } => cloner.stream_data(id, file_range.clone())?,
             StreamInner::Pending { ref data } => data.clone()
         };
+        let mut info = self.info.deep_clone(cloner)?;
+        // the copy holds the data as read through the source's decryption layer: their length need not be the stored length
+        // (AES adds an initialisation vector and padding), and /Length may have been an indirect object of the source
+        info.insert("Length", Primitive::Integer(data.len() as i32));
         Ok(PdfStream {
-            info: self.info.deep_clone(cloner)?, inner: StreamInner::Pending { data }
+            info, inner: StreamInner::Pending { data }
         })
     }
 }
